@@ -130,6 +130,11 @@ func ChildMain(prop, tier string, seed int64, from, to int, prefix string) int {
 	}()
 
 	c := NewCtx(prop, tier, seed)
+	c.ProcFrom, c.ProcMode = from, ProcModeFor(seed, from)
+	if ProcWarm != nil {
+		ProcWarm(c.ProcMode)
+	}
+	c.Counters[fmt.Sprintf("process.first-sight-mode.%d", c.ProcMode)]++
 	if m.Setup != nil {
 		m.Setup(c)
 	}
@@ -519,7 +524,7 @@ func finish(m *Monitor, mg *merged, prop, tier string, seed int64, n int, start 
 		seenKey[v.Key] = true
 		path := filepath.Join(outDirs[1], fmt.Sprintf("%s-%016x.json", prop, Mix(HashStr(v.Key), uint64(v.Idx))))
 		rb, _ := json.MarshalIndent(map[string]any{"property": prop, "tier": tier, "seed": seed, "idx": v.Idx,
-			"key": v.Key, "msg": v.Msg, "case": v.Case, "count": mg.violByKey[v.Key]}, "", " ")
+			"key": v.Key, "msg": v.Msg, "case": v.Case, "count": mg.violByKey[v.Key], "proc_mode": v.Mode, "proc_from": v.From}, "", " ")
 		os.WriteFile(path, rb, 0o644)
 		outs = append(outs, out{v.Key, path})
 	}
@@ -640,6 +645,8 @@ func ReplayMain(path string) int {
 		Tier     string `json:"tier"`
 		Seed     int64  `json:"seed"`
 		Idx      int    `json:"idx"`
+		Mode     int    `json:"proc_mode"`
+		From     int    `json:"proc_from"`
 	}
 	if err := json.Unmarshal(b, &r); err != nil {
 		fmt.Println(err)
@@ -651,10 +658,23 @@ func ReplayMain(path string) int {
 		return 2
 	}
 	c := NewCtx(r.Property, r.Tier, r.Seed)
-	c.Verbose = true
+	c.ProcMode, c.ProcFrom = r.Mode, r.From
+	if ProcWarm != nil {
+		ProcWarm(c.ProcMode)
+	}
 	if m.Setup != nil {
 		m.Setup(c)
 	}
+	if os.Getenv("VCHECK_REPLAY_HISTORY") == "1" && r.From >= 0 && r.From < r.Idx {
+		// a violation that depends on what the process did before: re-run the cases the child ran before this one
+		h := NewCtx(r.Property, r.Tier, r.Seed)
+		h.ProcMode, h.ProcFrom = r.Mode, r.From
+		for i := r.From; i < r.Idx; i++ {
+			RunCaseGuarded(m, h, i)
+		}
+		fmt.Printf("replayed the %d preceding cases of the process first\n", r.Idx-r.From)
+	}
+	c.Verbose = true
 	RunCaseGuarded(m, c, r.Idx)
 	if m.Teardown != nil {
 		m.Teardown(c)
